@@ -12,7 +12,7 @@ abbrev E := Except String
 def parseF (s : String) : E Rat :=
   match s.splitOn "p" with
   | [m, e] =>
-    match m.toInt?, e.toInt? with
+    match m.toInt?, (if e.startsWith "+" then (e.drop 1).toInt? else e.toInt?) with
     | some m, some e =>
       if e ≥ 0 then pure ((m * (2 : Int) ^ e.toNat : Int) : Rat)
       else pure ((m : Rat) / (((2 : Nat) ^ (-e).toNat : Nat) : Rat))
